@@ -276,13 +276,9 @@ fn enumerate(w: &mut World, prop: &str, seed: u64, extra: &mut BTreeMap<&'static
     let check_data = prop == "C05" || prop == "C12";
     let spans = w.op_spans.clone();
     let syncs = w.sync_points.clone();
-    let par_ranges = w.par_ranges.clone();
-    let seq_flush_done = w.seq_flush_done.clone();
     let mut kf05: Option<String> = None;
     let mut kf05_data: Option<String> = None;
     let mut kf08: Option<String> = None;
-    let mut kf06: Option<String> = None;
-    let no_kf06 = std::env::var("QSIM_NO_KF06").is_ok();
     'outer: for k in points {
         let cp = tl.at(k);
         let fam = crash::families(&cp, budget.torn, &mut rng);
@@ -311,56 +307,6 @@ fn enumerate(w: &mut World, prop: &str, seed: u64, extra: &mut BTreeMap<&'static
                 Err(e) => v.fatal = Some(e.clone()),
                 Ok(wk) => qspec::check_walk(&img, wk, false, &mut v),
             }
-            let in_par_early = par_ranges
-                .iter()
-                .any(|(a, b)| k > *a && !seq_flush_done.iter().any(|f| *f >= *b && *f < k));
-            let mut unsettled_l2 = false;
-            if v.first_problem(true).is_some() && v.fatal.is_none() && in_par_early && !no_kf06 {
-                // KF06, table side: with several tasks active an L1 entry can
-                // reach the disk while the zeroing / the slices of its L2
-                // table - written by another task, which had cleared the
-                // dirty flags - are still in flight.  An L2 table that an
-                // unpersisted request of this crash point targets is not
-                // counted: its L1 entry is dropped and the image judged again.
-                if let Ok(w0) = &wk {
-                    let mut patched = false;
-                    for (i, e) in w0.l1.iter().enumerate() {
-                        let l2off = e & 0x00ff_ffff_ffff_fe00;
-                        if l2off == 0 || l2off % cs != 0 {
-                            continue;
-                        }
-                        let l2cl = l2off / cs;
-                        let pending = cp.vols.iter().zip(&c.sel).any(|(v1, sel1)| {
-                            let r = tl.reqs[v1.req];
-                            r.len > 0
-                                && r.off / cs <= l2cl
-                                && (r.off + r.len as u64 - 1) / cs >= l2cl
-                                && sel1.iter().any(|b| !*b)
-                        });
-                        if pending {
-                            img.write(w0.hdr.l1_off + i as u64 * 8, &[0u8; 8]);
-                            patched = true;
-                        }
-                    }
-                    if patched {
-                        unsettled_l2 = true;
-                        wk = qspec::walk(&img);
-                        v = qspec::Verdict::default();
-                        match &wk {
-                            Err(e) => v.fatal = Some(e.clone()),
-                            Ok(wk) => qspec::check_walk(&img, wk, false, &mut v),
-                        }
-                        if v.first_problem(true).is_none() {
-                            *extra.entry("kf06_forgiven_images").or_insert(0) += 1;
-                            kf06.get_or_insert(format!(
-                                "{}\n  an L1 entry is on disk while writes into its L2 table by another task are not",
-                                describe_point(&tl, &cp, c)
-                            ));
-                        }
-                    }
-                }
-            }
-            let _ = unsettled_l2;
             if v.first_problem(true).is_some() && v.fatal.is_none() {
                 // Known findings about the order in which mappings and
                 // refcounts reach the disk.  Their effect is a mapping on
@@ -371,10 +317,6 @@ fn enumerate(w: &mut World, prop: &str, seed: u64, extra: &mut BTreeMap<&'static
                 //        cluster that a discard (issued before the crash)
                 //        covers may still be mapped on disk to a host cluster
                 //        that is free - or already somebody else's.
-                //  KF06: flush_meta() lets writers add mappings to L2 slices
-                //        between its refcount phase and its mapping phase, so
-                //        a mapping made by a concurrent write can be on disk
-                //        before the refcount of its cluster.
                 let discarded = |g: u64| {
                     spans.iter().any(|s| {
                         s.base.is_none() && s.start_seq <= k && {
@@ -383,107 +325,8 @@ fn enumerate(w: &mut World, prop: &str, seed: u64, extra: &mut BTreeMap<&'static
                         }
                     })
                 };
-                let conc_written = |g: u64| {
-                    spans.iter().any(|s| {
-                        s.base.is_some()
-                            && s.conc
-                            && s.len > 0
-                            && s.start_seq <= k
-                            && g >= s.off / cs
-                            && g <= (s.off + s.len - 1) / cs
-                    })
-                };
                 let wk = wk.as_ref().unwrap();
-                // KF06 applies to crash points inside a concurrent batch (the
-                // ordered flush is only enforced within one task): there,
-                // mappings / L2 tables whose refcount is not on disk yet are
-                // not counted against the image
-                // (its damage lasts until the next flush_meta() that runs
-                // alone has completed)
-                let in_par = par_ranges
-                    .iter()
-                    .any(|(a, b)| k > *a && !seq_flush_done.iter().any(|f| *f >= *b && *f < k));
-                let _ = &conc_written;
-                let stored_of = |cl: u64| qspec::stored_refcount(&img, wk, cl);
-                // KF06(b), also inside one multi-cluster call: a table write
-                // that was issued while the write of the refcount block it
-                // depends on was still in flight (another sub-request of the
-                // same call, or another task, had cleared the slice's dirty
-                // flag but not finished writing it).  `racing(X)`: the
-                // refcount of host cluster X lives in a refblock cluster R; an
-                // unpersisted volatile write W1 into R exists, and some write
-                // W2 into an L1/L2 cluster that is present in this image was
-                // submitted after W1 was submitted and before W1 completed.
-                let rbe = wk.hdr.rb_entries();
-                let table_clusters: BTreeSet<u64> = wk
-                    .owners
-                    .iter()
-                    .filter(|(_, o)| {
-                        o.iter()
-                            .any(|x| matches!(x, qspec::Owner::L2(_) | qspec::Owner::L1))
-                    })
-                    .map(|(c, _)| *c)
-                    .collect();
-                let racing = |x: u64| -> bool {
-                    let rti = (x / rbe) as usize;
-                    let Some(e) = wk.reftable.get(rti).copied() else {
-                        return false;
-                    };
-                    // where the missing refcount would be written: the refblock
-                    // cluster, or - when the refblock is not reachable yet -
-                    // the refcount table block holding its entry
-                    let (r_lo, r_hi) = if e == 0 {
-                        let a = wk.hdr.rt_off / cs;
-                        (a, a + wk.hdr.rt_clusters as u64 - 1)
-                    } else {
-                        (e / cs, e / cs)
-                    };
-                    // the refcount block write was not even submitted yet when
-                    // the table write of the same API call went out: another
-                    // sub-request had claimed the dirty slice (cleared its
-                    // flag) and was still busy zeroing / locking
-                    let late = tl.reqs.iter().any(|w1| {
-                        w1.kind == crate::sim::ReqKind::Write
-                            && w1.len > 0
-                            && w1.off / cs <= r_hi
-                            && (w1.off + w1.len as u64 - 1) / cs >= r_lo
-                            && tl.reqs.iter().any(|w2| {
-                                w2.kind == crate::sim::ReqKind::Write
-                                    && w2.api_op == w1.api_op
-                                    && w2.submit_seq < w1.submit_seq
-                                    && w2.submit_seq <= k
-                                    && w1.submit_seq > k
-                                    && w2.len > 0
-                                    && table_clusters.contains(&(w2.off / cs))
-                            })
-                    });
-                    if late {
-                        return true;
-                    }
-                    cp.vols.iter().zip(&c.sel).any(|(v1, sel1)| {
-                        let w1 = tl.reqs[v1.req];
-                        let in_r = w1.len > 0 && w1.off / cs <= r_hi && (w1.off + w1.len as u64 - 1) / cs >= r_lo;
-                        if !in_r || sel1.iter().all(|b| *b) {
-                            return false;
-                        }
-                        let w1_done = w1.complete_seq.unwrap_or(u64::MAX);
-                        tl.reqs.iter().any(|w2| {
-                            w2.kind == crate::sim::ReqKind::Write
-                                && w2.submit_seq > w1.submit_seq
-                                && w2.submit_seq < w1_done
-                                && w2.submit_seq <= k
-                                && w2.len > 0
-                                && table_clusters.contains(&(w2.off / cs))
-                        })
-                    })
-                };
-                for (pass, name) in [(0, "kf05"), (1, "kf06"), (2, "kf06")] {
-                    if pass == 2 && !in_par {
-                        break;
-                    }
-                    if pass >= 1 && no_kf06 {
-                        break;
-                    }
+                {
                     let mut w2 = qspec::Walk {
                         hdr: wk.hdr.clone(),
                         owners: wk.owners.clone(),
@@ -492,17 +335,9 @@ fn enumerate(w: &mut World, prop: &str, seed: u64, extra: &mut BTreeMap<&'static
                         l1: wk.l1.clone(),
                         reftable: wk.reftable.clone(),
                     };
-                    for (cl, o) in w2.owners.iter_mut() {
-                        let under = match pass {
-                            1 => (o.len() as u64) > stored_of(*cl) && racing(*cl),
-                            2 => (o.len() as u64) > stored_of(*cl),
-                            _ => false,
-                        };
+                    for (_cl, o) in w2.owners.iter_mut() {
                         o.retain(|x| match x {
-                            qspec::Owner::Data(g) | qspec::Owner::ZeroPrealloc(g) => {
-                                !(discarded(*g) || under)
-                            }
-                            qspec::Owner::L2(_) | qspec::Owner::Compressed(_) => !under,
+                            qspec::Owner::Data(g) | qspec::Owner::ZeroPrealloc(g) => !discarded(*g),
                             _ => true,
                         });
                     }
@@ -511,7 +346,7 @@ fn enumerate(w: &mut World, prop: &str, seed: u64, extra: &mut BTreeMap<&'static
                     qspec::check_walk(&img, &w2, false, &mut v2);
                     if std::env::var("QSIM_DEBUG_KF").is_ok() {
                         eprintln!(
-                            "k={k} choice={} pass={pass} in_par={in_par} orig={:?} after={:?}",
+                            "k={k} choice={} kf05 orig={:?} after={:?}",
                             c.name,
                             v.first_problem(true),
                             v2.first_problem(true)
@@ -523,15 +358,9 @@ fn enumerate(w: &mut World, prop: &str, seed: u64, extra: &mut BTreeMap<&'static
                             describe_point(&tl, &cp, c),
                             v.first_problem(true).unwrap().1
                         );
-                        if name == "kf05" {
-                            *extra.entry("kf05_forgiven_images").or_insert(0) += 1;
-                            kf05.get_or_insert(d);
-                        } else {
-                            *extra.entry("kf06_forgiven_images").or_insert(0) += 1;
-                            kf06.get_or_insert(d);
-                        }
+                        *extra.entry("kf05_forgiven_images").or_insert(0) += 1;
+                        kf05.get_or_insert(d);
                         v = v2;
-                        break;
                     }
                 }
             }
@@ -734,13 +563,6 @@ fn enumerate(w: &mut World, prop: &str, seed: u64, extra: &mut BTreeMap<&'static
         w.viol_nonfatal(
             &["C05", "C12"],
             "crash-image/new-cluster-mapped-before-its-data",
-            d,
-        );
-    }
-    if let Some(d) = kf06 {
-        w.viol_nonfatal(
-            &["C04", "C12"],
-            "crash-image/concurrent-tasks-mapping-on-disk-before-its-refcount",
             d,
         );
     }
